@@ -161,6 +161,10 @@ func build(sp Spec, o *obs) func() {
 						s.AppendError(errTask)
 					case "yield":
 						vsched.Point("task-yield")
+					case "latechild":
+						// the task creates a child scope of its scope and closes it at once (a command scope) -
+						// possibly at the very moment another task ends the scope
+						scope.NewChild(s, scope.ChildParams{Name: "late"}).Close()
 					}
 					o.doneStep[n] = append(o.doneStep[n], o.tick())
 					s.DoneTask()
@@ -485,6 +489,13 @@ func programs(thorough bool) []Spec {
 		if len(t) > 1 {
 			ps = append(ps, Spec{Scopes: t, Tasks: map[string][]string{"R": {"stop"}, last: {"stop-kill"}}, Bound: b})
 		}
+		// a short-lived child created by a task while another task ends the scope, next to the registered
+		// children: the scope's Close still waits for every registered child
+		if len(t) == 2 && last == "C" {
+			for _, end := range []string{"stop", "kill", "err"} {
+				ps = append(ps, Spec{Scopes: t, Tasks: map[string][]string{"R": {end, "latechild"}}, Bound: b})
+			}
+		}
 		// failing listeners
 		for _, ev := range []string{"BeforeClose", "BeforeCommit", "Commit", "Rollback", "AfterClose"} {
 			tasks := map[string][]string{last: {"yield"}}
@@ -550,7 +561,7 @@ func replay(wj json.RawMessage) (*fw.Violation, error) {
 
 func init() {
 	fw.Register(&fw.Check{ID: "C11", Level: "model_checking",
-		Rule: "programs = scope tree {root; +shared child; +isolated child; +child+grandchild; +shared+isolated} x task bodies {none, AppendError, Kill, Stop, yield, Stop-then-Kill, Stop-then-AppendError} in the deepest scope / the root / two per scope x a listener returning an error on {BeforeClose, BeforeCommit, Commit, Rollback, AfterClose} x tasks that report their failure only after the closer is inside Close; one closer thread per scope, one thread per task, recorders on all 11 events on the root (twice) and on every child; every schedule with <= bound preemptions; oracle on the global-step event log as described in DESIGN.md 3/C11. states = distinct schedule traces",
+		Rule: "programs = scope tree {root; +shared child; +isolated child; +child+grandchild; +shared+isolated} x task bodies {none, AppendError, Kill, Stop, yield, Stop-then-Kill, Stop-then-AppendError, create-and-close a child scope while another task ends the scope} in the deepest scope / the root / two per scope x a listener returning an error on {BeforeClose, BeforeCommit, Commit, Rollback, AfterClose} x tasks that report their failure only after the closer is inside Close; one closer thread per scope, one thread per task, recorders on all 11 events on the root (twice) and on every child; every schedule with <= bound preemptions; oracle on the global-step event log as described in DESIGN.md 3/C11. states = distinct schedule traces",
 		Run: run, Replay: replay,
 		Assumptions: []string{"commit/rollback is only judged when the error source is ordered before (or there is no error source at all for) the scope's wait end", "preemption bounds as reported; 1-2 tasks per scope, depth <= 3"}})
 }
